@@ -108,10 +108,11 @@ Definition calls_ok (es : list ev) (calls : list ocall) : bool :=
   list_eqb ocall_eqb (model_fc es) (filter ocall_is_fc calls) && lookups_ok es calls.
 
 Definition check_output : bool := true.
-Definition resp_ok (r : response) (sn : option snapshot) (es : list ev) (o : eobs) : bool :=
+(* co = compare the output bytes too *)
+Definition resp_ok_gen (co : bool) (r : response) (sn : option snapshot) (es : list ev) (o : eobs) : bool :=
   Bool.eqb (r_cont r) (eo_cont o)
   && ostat_eqb (ostat_of (r_exec r)) (eo_exec o)
-  && (negb check_output || bytes_eqb (r_out r) (eo_out o))
+  && (negb (check_output && co) || bytes_eqb (r_out r) (eo_out o))
   && (negb check_output || ostat_eqb (ostat_of_f (r_flush r)) (eo_flush o))
   && match eo_snap o, sn with
      | Some os, Some s => osnap_eqb (osnap_of s) os
@@ -119,18 +120,25 @@ Definition resp_ok (r : response) (sn : option snapshot) (es : list ev) (o : eob
      | Some _, None => false
      end
   && calls_ok es (eo_calls o).
+Definition resp_ok := resp_ok_gen true.
+
 
 (* ---- running a case ------------------------------------------------------------------ *)
-(* result: 0 = agrees on every step; k>0 = first disagreement at step k (1-based);
-   comparison stops (as agreeing) once the model is tainted or out of fuel *)
+(* result: 0 = agrees on every step; k>0 = first disagreement at step k (1-based).
+   Out of fuel: the comparison stops (as agreeing).  Tainted model (a Go error text the model does
+   not spell out became the page's error prefix): without an output size the text can only change
+   the output BYTES, so everything else - continue flag, statuses, the whole session snapshot, the
+   resource calls - is still compared for the rest of the history; with an output size the text's
+   length decides whether pages fit, and the comparison stops (as agreeing) *)
+Definition taint_stops (c : config) : bool := negb (c_out c =? 0).
 Fixpoint corr_long (rs : rsrc) (c : config) (e : engine) (steps : list (bytes * eobs)) (k : N) : N :=
   match steps with
   | [] => 0
   | (input, o) :: steps' =>
     let lg0 := v_log (e_v e) in
     let '(e', r) := request_long efuel rs c e input in
-    if v_taint (e_v e') || is_fuel (r_exec r) || is_ffuel (r_flush r) then 0 else
-    if resp_ok r (Some (snap_of (v_st (e_v e')) (v_ca (e_v e')))) (new_events lg0 (v_log (e_v e'))) o
+    if (v_taint (e_v e') && taint_stops c) || is_fuel (r_exec r) || is_ffuel (r_flush r) then 0 else
+    if resp_ok_gen (negb (v_taint (e_v e'))) r (Some (snap_of (v_st (e_v e')) (v_ca (e_v e')))) (new_events lg0 (v_log (e_v e'))) o
     then corr_long rs c e' steps' (k + 1) else k
   end.
 Fixpoint corr_pers (rs : rsrc) (c : config) (p : pworld) (steps : list (bytes * eobs)) (k : N) : N :=
@@ -139,8 +147,8 @@ Fixpoint corr_pers (rs : rsrc) (c : config) (p : pworld) (steps : list (bytes * 
   | (input, o) :: steps' =>
     let lg0 := pw_log p in
     let '(p', r) := request_persisted efuel rs c p input in
-    if pw_taint p' || is_fuel (r_exec r) || is_ffuel (r_flush r) then 0 else
-    if resp_ok r (pw_store p') (new_events lg0 (pw_log p')) o
+    if (pw_taint p' && taint_stops c) || is_fuel (r_exec r) || is_ffuel (r_flush r) then 0 else
+    if resp_ok_gen (negb (pw_taint p')) r (pw_store p') (new_events lg0 (pw_log p')) o
     then corr_pers rs c p' steps' (k + 1) else k
   end.
 
